@@ -1,4 +1,5 @@
 import atexit
+import re
 import subprocess
 
 import vlib
@@ -106,9 +107,13 @@ class C14(Prop):
             "credit withheld and granted; plus, with grease on and credit limited: finish() with the grease frame cut at every "
             "offset 0..16 and under grants of 1,2,3,7 bytes, responses / requests with 2-4 DATA frames and trailers under "
             "dripping credit, the grease stream refused by uni-stream credit and granted later (it moves only with the next "
-            "control frame of the peer) and its write cut by wc, GOAWAY queued behind a partly written SETTINGS frame; "
-            "non-trivial = the implementation wrote at least one frame beyond the three stream headers (out) / returned "
-            "bytes (wbuf)")
+            "control frame of the peer) and its write cut by wc, GOAWAY queued behind a partly written SETTINGS frame, and "
+            "systematically the grease stream blocked inside its 8-byte stream type (k = 0..8 bytes taken through wc=k or "
+            "gw<grease id>:k, then Pending) x a second control frame (MAX_PUSH_ID / CANCEL_PUSH to a server, GOAWAY to a client) "
+            "delivered while it is blocked x {nothing, a third frame, more credit, more credit + a third frame, credit in two "
+            "steps} - a stream finished meanwhile is judged `truncated` by checkStream; "
+            "non-trivial = the implementation wrote at least one frame beyond the three stream headers or wrote on its grease "
+            "stream (out) / returned bytes (wbuf)")
     trusted = ["bytes::Bytes Buf impl for payloads", "SimQuic's poll_ready loop respects the Buf contract (chunk, advance <= chunk length)",
                "field-section annotations (#fs) are obtained from the real encoder by a probe run and are inputs of the model"]
     assumptions = ["R-14: API programs are sequences of calls each awaited to completion; a send future dropped in mid-write is outside the model",
@@ -497,6 +502,32 @@ class C14(Prop):
                 ops += open_request(server, 0, rq0, cfgs) + ["gw0:100", "q0.fi", "gw0:%d" % rng.choice([3, 100])]
             L.append("out %s %s %s" % (role, cfgs, " ".join(ops)))
 
+        # (e) the grease stream blocked INSIDE its 8-byte stream type: k = 0..8 bytes taken, then Pending; a second control frame
+        #     (MAX_PUSH_ID / CANCEL_PUSH to a server, GOAWAY to a client) arrives while it is blocked — `poll_grease_stream`
+        #     runs again; then more credit and a third frame let it complete.  A stream finished in between has a truncated
+        #     stream type (seeded change C14/patch3: `DataSent` set before the result of the flush is looked at).
+        for server in (True, False):
+            role = "server" if server else "client"
+            main = "conn.A" if server else "drv.W"
+            ctl = 2 if server else 3
+            gsid = 15 if server else 14
+            frames = ["0d0100", "030100", "0d0105"] if server else ["07013c", "070138", "070138"]
+            for k in range(0, 9):
+                for via in ("wc", "gw"):
+                    if via == "gw" and k == 0:
+                        continue
+                    wc = k if via == "wc" else 0
+                    cfgs = "g1,wc=%d" % wc
+                    head = up(server, wc) + ["o%d" % ctl, "s%d:000400" % ctl, main] + (["gw%d:%d" % (gsid, k)] if via == "gw" else [])
+                    for second in frames[:2]:
+                        blocked = head + ["s%d:%s" % (ctl, second)]
+                        L.append("out %s %s %s" % (role, cfgs, " ".join(blocked)))
+                        L.append("out %s %s %s" % (role, cfgs, " ".join(blocked + ["s%d:%s" % (ctl, frames[2])])))
+                        L.append("out %s %s %s" % (role, cfgs, " ".join(blocked + ["gw%d:100" % gsid])))
+                        L.append("out %s %s %s" % (role, cfgs, " ".join(blocked + ["gw%d:100" % gsid, "s%d:%s" % (ctl, frames[2])])))
+                        L.append("out %s %s %s" % (role, cfgs, " ".join(blocked + ["gw%d:2" % gsid, "s%d:%s" % (ctl, frames[2]), "gw%d:100" % gsid,
+                                                                                     "s%d:%s" % (ctl, frames[2])])))
+
         # (d) GOAWAY queued behind a SETTINGS frame that is only partly written: `shutdown` is called as soon as the builder
         #     returns, the credit of the control stream comes in small grants and stops anywhere
         for _ in range(120 if big else 40):
@@ -572,6 +603,8 @@ class C14(Prop):
         if line.startswith("wbuf"):
             return not impl.startswith("all=")
         ops = line.split()[3:]
+        if re.search(r"(^| )1[45]:sh=[^- ]", impl):
+            return False    # h3 has opened its grease stream and written on it
         return not any(o.split(".")[-1].split(":")[0] in ("R", "sr", "sd", "st", "fi", "S") for o in ops if "." in o)
 
     def shrink_candidates(self, line):
